@@ -168,7 +168,7 @@ let () =
         hist_meta := Printf.sprintf "gen=%s seed=%s" (List.assoc "gen" kv) (List.assoc "seed" kv);
         listeners := []; step_no := 0; cur_op := None; cur_st := []; pre_lines := [];
         (* the harness is a default build (no link flags) that links the application: the switch must be off *)
-        if !switch then begin
+        if !switch && (try List.assoc "forced" kv <> "1" with Not_found -> true) then begin
           incr checkfails;
           Printf.printf "CHECK hist=%s step=0 prop=C10 checker=default_build_switch op=[] detail=[keeper.EnableAddAllowedBidder is true at run time in a binary built without the testing link flag] %s\n" !hist !hist_meta
         end
